@@ -283,9 +283,79 @@ def correspondence(ctx):
     ctx.add_sample({"family": rows[0][1], "rng_line": lines[0][:120], "lean": out[0]})
 
 
+def option_sweep_cases(dfols, n):
+    """(tag, kwargs): every key of the package's parameter table set to its own default (a legal value), the option combinations
+    solve() itself reacts to (contradictory pairs, noise defaults, growing choices), and bounds given as float64 arrays with
+    infinite entries — all passed as the caller's own objects and compared afterwards"""
+    pl = dfols.params.ParameterList(n, n + 1, 50)
+    cases = []
+    for key, val in sorted(pl.params.items()):
+        if val is not None:
+            cases.append(("param:" + key, {"user_params": {key: val}}))
+    combos = [{"growing.perturb_trust_region_step": True}, {"growing.perturb_trust_region_step": True, "growing.full_rank.use_full_rank_interp": False},
+              {"growing.safety.full_geom_step": True}, {"growing.safety.full_geom_step": True, "growing.safety.reduce_delta": True},
+              {"noise.quit_on_noise_level": True}, {"noise.quit_on_noise_level": True, "noise.multiplicative_noise_level": 0.1},
+              {"noise.quit_on_noise_level": True, "noise.additive_noise_level": 0.1, "noise.multiplicative_noise_level": 0.1},
+              {"growing.reset_rho": True}, {"growing.reset_rho": True, "growing.reset_delta": True},
+              {"init.run_in_parallel": True}, {"init.run_in_parallel": True, "init.random_initial_directions": True},
+              {"restarts.use_restarts": True, "restarts.use_soft_restarts": False, "restarts.increase_npt": True},
+              {"logging.save_diagnostic_info": True, "logging.save_xk": True, "logging.save_rk": True}]
+    for j, up in enumerate(combos):
+        cases.append(("combo:%d" % j, {"user_params": up}))
+        cases.append(("combo-noise:%d" % j, {"user_params": up, "objfun_has_noise": True}))
+    inf = float("inf")
+    lo, hi = -1.5 * np.ones(n), 2.5 * np.ones(n)
+    for tag, b in (("inf-lower", (np.full(n, -inf), hi)), ("inf-upper", (lo, np.full(n, inf))),
+                   ("inf-mixed", (np.where(np.arange(n) % 2 == 0, -inf, lo), np.where(np.arange(n) % 2 == 1, inf, hi))),
+                   ("huge-finite", (np.full(n, -1e25), np.full(n, 1e25)))):
+        cases.append(("bounds:" + tag, {"bounds": b}))
+        cases.append(("bounds-scaled:" + tag, {"bounds": b, "scaling_within_bounds": True}))
+    return cases
+
+
+def option_sweep(ctx, dfols, only=None):
+    """solve never modifies the caller's x0, bound arrays or user_params dictionary — over the whole option space (writes to the
+    arrays are not blocked here: the arrays stay writeable, so that an in-place edit that a read-only flag would turn into an
+    exception is SEEN as a modification; compared byte for byte)"""
+    stats = {"cases": 0, "input_errors": 0, "raised": 0}
+    out = []
+    rng = np.random.default_rng([ctx.seed, 1920])
+    prob = problems.rand_problem(rng)
+    n = prob["n"]
+    for tag, kw in option_sweep_cases(dfols, n):
+        if only is not None and tag != only:
+            continue
+        x0 = np.clip(prob["x0"], -1.0, 2.0).copy()
+        kw2 = {}
+        for k, v in kw.items():
+            kw2[k] = tuple(a.copy() for a in v) if k == "bounds" else (dict(v) if k == "user_params" else v)
+        before = (x0.tobytes(), [a.tobytes() for a in kw2.get("bounds", ())], copy.deepcopy(kw2.get("user_params")))
+        np.random.seed(7)
+        try:
+            soln = core.with_alarm(30, dfols.solve, prob["f"], x0, maxfun=12, do_logging=False, **kw2)
+            stats["input_errors"] += int(soln.flag == soln.EXIT_INPUT_ERROR)
+        except BaseException:
+            stats["raised"] += 1           # what an option combination raises is C07's business; the caller's data still count
+        stats["cases"] += 1
+        ctx.seen(("c19sweep", tag))
+        mut = []
+        if x0.tobytes() != before[0]:
+            mut.append("x0 modified")
+        if [a.tobytes() for a in kw2.get("bounds", ())] != before[1]:
+            mut.append("bounds array modified: %r" % (kw2["bounds"],))
+        if kw2.get("user_params") != before[2]:
+            mut.append("user_params modified: %r -> %r" % (before[2], kw2.get("user_params")))
+        for m in mut:
+            out.append(("C19:caller-data-modified|sweep:" + tag.split(":")[0], m, {"sweep": tag, "sweep_seed": [ctx.seed, 1920]}))
+    ctx.cov["caller_data_option_sweep"] = stats
+    return out
+
+
 def search(ctx):
     if getattr(ctx, "boost", 1) > 1 and hasattr(ctx, "_c19"):
         del ctx._c19
+    for sig, what, rpl in option_sweep(ctx, core.import_dfols()):
+        ctx.fail(sig, what, rpl)
     rows = _all(ctx)
     stats = {"compared": 0, "documented_random": 0, "identical": 0}
     for (i, name, kw, n, a, b) in rows:
@@ -318,6 +388,14 @@ def search(ctx):
 def replay(payload):
     dfols = core.import_dfols()
     rp = payload.get("replay", {})
+    if "sweep" in rp:
+        class _C:
+            seed = rp["sweep_seed"][0]
+            cov = {}
+            def seen(self, *a): pass
+        res = option_sweep(_C(), dfols, only=rp["sweep"])
+        print("replay:", [(a, b) for a, b, _ in res] if res else "property holds on this input now")
+        return 1 if res else 0
     if "problem_seed" not in rp:
         print("replay names a broken obligation:", payload.get("broken"))
         return 1
